@@ -94,7 +94,7 @@ def _make_stub(mod, sig, fn, returns):
     oc = None if scalar else [r for r in returns if r is not None]
 
     def stub(lib, *args):
-        if lib is not LIB or S.CTX is None:
+        if not isinstance(lib, S.Lib) or S.CTX is None:
             return fn(lib, *args)
         cfn, *cret = mod.dispatch_map[csig]
         nscal = len(args) - nc
@@ -207,7 +207,7 @@ def _make_kernel_stub(key, spec, mod):
     KERNEL_ORIG[key] = (ftau, ft)
 
     def kstub(lib, x1, y1, z1, tau1, *params):
-        if lib is not LIB or S.CTX is None or NO_KERNEL_STUB:
+        if not isinstance(lib, S.Lib) or S.CTX is None or NO_KERNEL_STUB:
             return ftau(lib, x1, y1, z1, tau1, *params)
         ctx = S.CTX
         for desc, f in kernel_requires(key, params):
